@@ -1,6 +1,6 @@
 """compiled-runtime half of C13: the same instance under different record settings gives the same execution (host log,
 final graph state); every recorded row equals the host log row; rows never executed stay -1."""
-import random, itertools
+import random, itertools, json
 from . import compiledlib as cl, c07, asynclib as al
 
 FLAGS = ("params", "rng", "inputs", "state", "output")
@@ -14,16 +14,25 @@ def run(chk):
     combos = [dict(zip(FLAGS, b)) for b in itertools.product([False, True], repeat=5)]
     pick = [dict(zip(FLAGS, [True] * 5)), dict(zip(FLAGS, [False] * 5))] + (chk.rnd.sample(combos, 2) if quick else combos)
     jobs = []
-    for j in base:
+    for bi, j in enumerate(base):
+        # half of the graphs are started in the middle of the episode (init(starting_step > 0)) and rolled out to its end: rows before the
+        # starting step stay -1, every executed step has its row; all three supergraph modes
+        start = ((1 if j["id"].startswith("r") else chk.rnd.choice([1, 2, 3])) if bi % 2 == 1 else None)      # high-ratio graphs have 3-4 partitions only
+        mode = c07.MODES[(bi + chk.seed + 1) % 3] if bi % 2 == 1 else j["mode"]
         for i, rec in enumerate(pick):
-            jj = dict(j); jj["id"] = f"c13c:{j['id']}:{i}"; jj["record"] = rec; jj["base"] = j["id"]; jobs.append(jj)
+            jj = dict(j); jj["id"] = f"c13c:{j['id']}:{i}"; jj["record"] = rec; jj["base"] = j["id"]; jj["mode"] = mode
+            if start:
+                jj["starting_step"] = start; jj["prune"] = False; jj["reshape"] = dict(trim_after_sup=True)
+                jj["cfg"] = json.loads(json.dumps(j["cfg"]))
+                for nd in jj["cfg"]["nodes"].values(): nd["delays"] = [max(1, d) for d in nd["delays"]]
+            jobs.append(jj)
     res = cl.run_jobs(jobs, nproc=6 if quick else 12)
     by = {}
     for j in jobs: by.setdefault(j["base"], []).append(j)
     for b, js in by.items():
         ref = None
         cfg = js[0]["cfg"]; names = sorted(cfg["nodes"])
-        case = dict(cfg=cfg, source=js[0]["source"], mode=js[0]["mode"], prune=js[0]["prune"], seed=js[0].get("seed"), tmax=js[0].get("tmax"), steps=js[0].get("steps"), runtime="compiled")
+        case = dict(cfg=cfg, source=js[0]["source"], mode=js[0]["mode"], prune=js[0]["prune"], seed=js[0].get("seed"), tmax=js[0].get("tmax"), steps=js[0].get("steps"), runtime="compiled", starting_step=js[0].get("starting_step"), reshape=js[0].get("reshape"))
         ok = [j for j in js if "error" not in res.get(j["id"], dict(error=1)) and "graph_error" not in res[j["id"]]]
         if not ok: chk.feat("compiled:rejected-or-error"); continue
         chk.case((repr(cfg), js[0]["mode"], js[0]["prune"], "compiled-record"), ["compiled", f"settings={len(ok)}"] + al.features(cfg), None)
@@ -41,6 +50,11 @@ def run(chk):
                 for n in names:
                     c = ep.get("rows", {}).get(n)
                     if c is None: continue
+                    # every executed step has its row (host log -> record)
+                    lost = [sq for (m, sq) in host if m == n and (sq >= len(c["seq"]) or c["seq"][sq] != sq)]
+                    if lost:
+                        chk.violation("executed-step-not-recorded", f"compiled {n}[{lost[0]}] was executed (host log) but its record row holds seq "
+                                      f"{c['seq'][lost[0]] if lost[0] < len(c['seq']) else 'beyond the record'} (starting_step={j.get('starting_step')}, {j['mode']})", case)
                     for k in range(len(c["seq"])):
                         sq = c["seq"][k]
                         if sq < 0:
